@@ -433,3 +433,48 @@ func VerifC16_DropRacesJoin() {
 	zzCleanup()
 	zzverif.Reach("drop")
 }
+
+// a slow consumer (full queue) is dropped by a hub-wide broadcast: afterwards it
+// is in no room, its own view is empty, and room messages do not touch it
+func VerifC16_SlowConsumerDropped() {
+	zzverif.Obligation("hub operations return")
+	cfg := DefaultConfig()
+	cfg.MessageQueueSize = 1 + zzverif.Choice("queue", 2)
+	cfg.MessageQueueStrategy = []QueueStrategy{QueueStrategyDropOldest, QueueStrategyDropNewest}[zzverif.Choice("strategy", 2)]
+	cfg.EnableReconnection = false
+	hub := NewHubWithConfig(cfg)
+	go hub.Run()
+	<-hub.started
+	c1 := NewConnection("a", zzSocket(), hub)
+	c2 := NewConnection("b", zzSocket(), hub)
+	hub.register <- c1
+	hub.register <- c2
+	c1.JoinRoom("r")
+	c2.JoinRoom("r")
+	if zzverif.Bool("secondRoom") {
+		c1.JoinRoom("s")
+	}
+	for k := 0; k < cfg.MessageQueueSize; k++ {
+		c1.send <- []byte("fill") // nobody drains c1: its queue is full now
+	}
+	hub.Broadcast([]byte("b"))
+	zzverif.Yield()
+	zzverif.Assert(hub.GetConnectionCount() == 1, "slow consumer not dropped by the hub-wide broadcast")
+	for _, room := range []string{"r", "s"} {
+		r, ok := hub.GetRoomManager().GetRoom(room)
+		zzverif.Assert(!ok || !r.Has(c1), "a dropped connection is still a member of a room")
+		zzverif.Assert(!c1.IsInRoom(room), "a dropped connection's own view still lists a room")
+	}
+	// messages to its former rooms must not crash the hub and reach only the other member
+	for len(c2.send) > 0 {
+		<-c2.send
+	}
+	hub.BroadcastToRoom("r", []byte("m"), nil)
+	hub.BroadcastToRoom("s", []byte("m"), nil)
+	zzverif.Yield()
+	zzverif.Assert(len(c2.send) == 1, "room message after the drop not delivered to the remaining member exactly once")
+	close(hub.shutdown)
+	zzverif.Yield()
+	zzCleanup()
+	zzverif.Reach("dropped")
+}
